@@ -109,8 +109,11 @@ class C05(F.Spec):
 
     def nontrivial_key(self, case, groups):
         raw = case.meta.get("raw_impl") or []
-        k = tuple(sorted(set(x for g in raw for x in g if x.startswith("DECISION ") and x != "DECISION none")))
-        return (case.meta.get("kind"), k) if k else None
+        ds = [x.split()[1] for g in raw for x in g if x.startswith("DECISION ")]
+        ev = [x for g in raw for x in g if x in ("DISCONNECT", "RESTART", "PINGREPLY")]
+        if not [d for d in ds if d != "none"] and not ev:
+            return None
+        return (case.meta.get("kind"), case.meta.get("T"), tuple(ds[:12]), len(ev) // 5)
 
 
 SPEC = C05()
